@@ -1,4 +1,5 @@
 import SlipVerif.Model.Types
+import SlipVerif.Gen.TypeCode
 import SlipVerif.Lemmas.Types
 import SlipVerif.Theorems.C16
 /-
@@ -71,5 +72,25 @@ theorem specSub_trans_gen (s t u : TSpec) (h1 : specSub classes s t = true) (h2 
     subtype_trans a (mem_classNames_of_registered classes a (registered_of_subtypep classes a b hab).1)
       b (mem_classNames_of_registered classes b (registered_of_subtypep classes a b hab).2)
       c (mem_classNames_of_registered classes c (registered_of_subtypep classes b c hbc).2) hab hbc) s t u h1 h2
+
+/-! ### the code of typep / type-of / subtypep (Gen/TypeCode.lean, extract/typecode.go)
+
+The registry model (Model/ClassReg.lean, Theorems/C16Dyn.lean) answers from the current
+definitions and the class of the object alone. The code does so as long as the three functions keep no
+state of their own between calls and consult `Hierarchy()` / `FindClass` + `Inherits`. -/
+
+open SlipVerif.Gen.TypeCode in
+/-- typep, type-of and subtypep refer to no package-level variable (no memo, cache or counter
+    survives a call): their answers are functions of the arguments and the class registry -/
+theorem type_predicates_stateless : typepState = [] ∧ typeOfState = [] ∧ subtypepState = [] := by
+  decide
+
+open SlipVerif.Gen.TypeCode in
+/-- typep and type-of consult the object's `Hierarchy()`, subtypep consults the registry
+    (`FindClass`) and `Class.Inherits` -/
+theorem type_predicates_consult :
+    typepCalls.contains "Hierarchy" = true ∧ typeOfCalls.contains "Hierarchy" = true ∧
+    subtypepCalls.contains "FindClass" = true ∧ subtypepCalls.contains "Inherits" = true := by
+  decide
 
 end SlipVerif.Types.Gen
